@@ -490,6 +490,9 @@ class Clock:
 
 CLOCK = Clock()
 DNS = {}           # host -> outcome word of the current case
+DNS_FAIL = {}      # host -> number of initial lookups that fail transiently (resolver answers are a history)
+LOOKUPS = {}       # host -> lookups made so far in the current case
+FAULT = [False]    # a transient resolver failure happened during the current call / decide
 REAL_GETHOSTBYNAME = socket.gethostbyname
 
 
@@ -498,6 +501,12 @@ def fake_time():
 
 
 def fake_gethostbyname(host):
+    n = LOOKUPS.get(host, 0)
+    LOOKUPS[host] = n + 1
+    if n < DNS_FAIL.get(host, 0):
+        FAULT[0] = True
+        # what the real resolver raised in this sandbox for a temporary failure (EAI_AGAIN)
+        raise socket.gaierror(socket.EAI_AGAIN, "Temporary failure in name resolution")
     o = DNS.get(host)
     if o is None or o == "gaierror":
         raise socket.gaierror(-2, "Name or service not known")
@@ -690,6 +699,8 @@ def exec_case(ops, out):
     ic = None
     called = False
     DNS.clear()
+    DNS_FAIL.clear()
+    LOOKUPS.clear()
     CLOCK.ticks = 0
     tripped = excluded = raised = False
     for op in ops:
@@ -707,13 +718,18 @@ def exec_case(ops, out):
                 outs.append("ok valid=%d max=%d cool=%d allow=%s block=%s" % (
                     int(ic.tf._state_ok), ic.fs._max_errors_allowed, ic.fs._cooldown_time,
                     fmt_list(ic.tf._allow_list), fmt_list(ic.tf._block_list)))
-            elif k == "dns" and len(w) == 3:
+            elif k == "dns" and len(w) in (3, 4):
                 r = w[2]
+                nfail = kv(w[3:], "fail") if len(w) == 4 else "0"
+                if nfail is None or not nfail.isdigit():
+                    outs.append("bad-op")
+                    continue
                 okres = r in ("gaierror", "unicode", "oserror:emfile", "oserror:enomem", "herror", "timeout") or ((r.startswith("ip:") or r.startswith("real:")) and valid_quad(r.split(":", 1)[1]))
                 if ic is None or called or not okres:
                     outs.append("bad-op")
                     continue
                 DNS[dec(w[1])] = r
+                DNS_FAIL[dec(w[1])] = int(nfail)
                 outs.append("ok")
             elif k == "adv" and len(w) == 2 and (kv(w, "d") or "").isdigit():
                 if ic is None:
@@ -737,6 +753,7 @@ def exec_case(ops, out):
                 host = dec(host)
                 s = SCRIPT
                 s.gw, s.direct, s.legs, s.lib, s.gw_exc = gw, di, [], lib, None
+                FAULT[0] = False
                 url = "http://%s/v1/x" % (("[%s]" % host) if ":" in host else host)
                 kwargs = {} if headers is None else {"headers": headers}
                 try:
@@ -750,8 +767,10 @@ def exec_case(ops, out):
                     if not isinstance(e, (AppGw, AppDirect)) and e is not s.gw_exc:
                         raised = True
                 out.count("lib-" + lib)
-                outs.append("sent=%s res=%s cnt=%d ok=%d" % (",".join(s.legs) or "-", res, ic.fs._error_counter,
-                                                             int(ic.fs._state_ok)))
+                outs.append("sent=%s res=%s cnt=%d ok=%d flt=%d" % (",".join(s.legs) or "-", res, ic.fs._error_counter,
+                                                                    int(ic.fs._state_ok), int(FAULT[0])))
+                if FAULT[0]:
+                    out.count("call-with-transient-resolver-fault")
                 if not ic.fs._state_ok:
                     tripped = True
                 if s.legs == ["direct"] and ic.fs._state_ok:
@@ -771,8 +790,10 @@ def exec_case(ops, out):
                     outs.append("bad-op")
                     continue
                 called = True
+                FAULT[0] = False
                 try:
-                    outs.append("allowed=%d" % int(bool(ic.tf.is_allowed(dec(host), headers))))
+                    a = int(bool(ic.tf.is_allowed(dec(host), headers)))
+                    outs.append("allowed=%d flt=%d" % (a, int(FAULT[0])))
                 except Exception as e:  # the decision raised: an observable answer
                     outs.append("raised:" + type(e).__name__)
                     raised = True
@@ -811,6 +832,7 @@ T0 = 1_700_000_000 * TICKS_PER_SEC
 PUBLIC = "api.example.test"
 PUBLIC_IP = "93.184.216.34"
 PRIVATE_LIT = "10.1.2.3"
+FLAKY = "flaky.example.test"      # public; its first two lookups fail transiently
 FAULTY = "emfile.example.test"
 FAULTY2 = "slow.example.test"
 
@@ -876,7 +898,7 @@ HDR_EVENTS = {"0": "errhdr:10", "1": "errhdr:77", "2": "errhdr:abc", "3": "errhd
 def seq_case(cid, maxe, cool, events, extra_cfg="", lib=None, rnd=None):
     """events: list of event letters -> op lines"""
     ops = ["cfg max=%d cool=%d block=%%n allow=%%n t0=%d" % (maxe, cool, T0), "dns %s ip:%s" % (PUBLIC, PUBLIC_IP),
-           "dns %s oserror:emfile" % FAULTY, "dns %s timeout" % FAULTY2]
+           "dns %s oserror:emfile" % FAULTY, "dns %s timeout" % FAULTY2, "dns %s ip:%s fail=2" % (FLAKY, PUBLIC_IP)]
     eff = cool if cool else 10
     for e in events:
         if e == "S":
@@ -905,6 +927,10 @@ def seq_case(cid, maxe, cool, events, extra_cfg="", lib=None, rnd=None):
             ops.append("call host=%s hdr=- gw=connsub direct=ok" % PUBLIC)
         elif e == "6":     # decision raises (F19a)
             ops.append("call host=::1 hdr=- gw=ok direct=ok")
+        elif e == "F":     # a public destination whose first lookups fail transiently
+            ops.append("call host=%s hdr=- gw=ok direct=ok" % FLAKY)
+        elif e == "f":
+            ops.append("decide host=%s hdr=-" % FLAKY)
         elif e == "R":     # resolver system error while classifying the destination
             ops.append("call host=%s hdr=- gw=ok direct=ok" % FAULTY)
         elif e == "r":
@@ -967,6 +993,8 @@ def host_case(r, cid):
             pool.append(n)
             if r.chance(80):
                 dns[n] = "ip:" + (r.pick(BOUNDARY_IPS) if r.chance(80) else PUBLIC_IP)
+                if r.chance(25):
+                    dns[n] += " fail=%d" % r.range(1, 3)
             elif r.chance(60):
                 dns[n] = r.pick(RESOLVER_FAULTS + ["gaierror"])
     mode = r.intn(10)
@@ -1001,7 +1029,7 @@ def rand_seq_case(r, cid):
     cool = r.pick([1, 2, 3, 4, 5, 1, 2, 3, 4, 5, 0])
     n = r.range(1, 12)
     # failure-heavy so that the breaker really opens, with advances around the boundary
-    letters = "SEEHHCABTTtUXY6ONRrD012345ZZZ"
+    letters = "SEEHHCABTTtUXY6ONRrD012345ZZZFFFf"
     ev = [letters[r.intn(len(letters))] for _ in range(n)]
     return seq_case(cid, maxe, cool, ev, lib=r.pick(LIBS), rnd=r)
 
@@ -1059,6 +1087,26 @@ def generate(r, tier, budget, emit):
             ops += ["call host=%s hdr=- gw=%s direct=ok" % (PUBLIC, w)] * maxe
             ops += ["call host=%s hdr=- gw=ok direct=ok" % PUBLIC, "adv d=16", "call host=%s hdr=- gw=ok direct=ok" % PUBLIC]
             emit(nid("x"), ops)
+    # resolver answers as a history: the first k lookups of a public name fail, later ones succeed; around a
+    # trip of the breaker (no lookup happens while it is open) and after the cool-down
+    for k in (0, 1, 2, 3):
+        for maxe in (1, 2):
+            for lib in LIBS:
+                for pat in ("FFFFF", "EEFTTFFF", "FEEFTTFFF", "fFfFF", "EEFtFTTFFFF"):
+                    ops = ["cfg max=%d cool=1 block=%%n allow=%%n t0=%d" % (maxe, T0), "dns %s ip:%s" % (PUBLIC, PUBLIC_IP),
+                           "dns %s ip:%s fail=%d" % (FLAKY, PUBLIC_IP, k)]
+                    for e in pat:
+                        if e == "F":
+                            ops.append("call lib=%s host=%s hdr=- gw=ok direct=ok" % (lib, FLAKY))
+                        elif e == "f":
+                            ops.append("decide host=%s hdr=-" % FLAKY)
+                        elif e == "E":
+                            ops.append("call lib=%s host=%s hdr=- gw=connerr direct=ok" % (lib, PUBLIC))
+                        elif e == "T":
+                            ops.append("adv d=4")
+                        else:
+                            ops.append("adv d=1")
+                    emit(nid("k"), ops)
     # every class of every library's exception hierarchy on the gateway leg: enough of them in a row,
     # a call inside the cool-down, a call after it
     for lib in LIBS:
